@@ -23,7 +23,7 @@ RULE = ("generated XMILE structures: 1-3 stocks with 0-3 inflows and 0-3 outflow
         "programs = documents compiled; distinct_nontrivial = distinct (dt, start, #stocks, flow kinds, gf forms) combinations whose stocks "
         "actually move and where a non-negative flow clamps at least once or a stock has >=2 inflows/outflows.")
 ASSUMPTIONS = ["stocks are not declared non-negative (only flows are)", "values compared at 1e-9 relative; memo keys must lie within 1e-9 of a grid point"]
-REQUIRED = {"later_start_scenarios": 8, "documents_with_modules": 5, "documents_compiled": 30, "trajectory_cells": 3000, "memo_keys_checked": 3000, "dsl_twin_cells": 1000}
+REQUIRED = {"scenarios_started_at_zero": 3, "later_start_scenarios": 8, "documents_with_modules": 5, "documents_compiled": 30, "trajectory_cells": 3000, "memo_keys_checked": 3000, "dsl_twin_cells": 1000}
 BUDGET_S = {"quick": 110, "thorough": 1500}
 
 DTS = [("0.3", None), ("0.2", None), ("1", None), ("0.5", None), ("0.25", None), ("0.125", None), ("0.1", None), ("0.05", None), ("0.2", None), ("0.01", None),
@@ -270,6 +270,10 @@ def run_case(case):
                     sp_late["run"]["start"] = str(Fr(spec["run"]["start"]) + 2 * Fr(spec["run"]["dt"])) if "/" not in spec["run"]["start"] else spec["run"]["start"]
                     from decimal import Decimal
                     sp_late["run"]["start"] = str(Decimal(spec["run"]["start"]) + 2 * Decimal(spec["run"]["dt"]))
+                    if Decimal(spec["run"]["start"]) > 0 and (Decimal(spec["run"]["start"]) / Decimal(spec["run"]["dt"])) % 1 == 0 and case["seed"] % 4 != 1:
+                        # ... or EARLIER than the document says: exactly at time 0
+                        sp_late["run"]["start"] = "0"
+                        counters["scenarios_started_at_zero"] = counters.get("scenarios_started_at_zero", 0) + 1
                     try:
                         rl = refsd.Ref(sp_late)
                         late_tab = rl.table()
